@@ -258,16 +258,25 @@ def run_path(pp, solver, tvars, entry, n, decisions, extra_pc=(), nd_shared=None
     r.post_hooks['Parser::get_state'] = post_get
     r.post_hooks['Parser::set_state'] = post_set
     # lasso detection at loop heads of emitted rule functions
-    r.loop_seen = set()
+    r.loop_seen = set(); grow = {}
     def loop_key(m, fr, bb):
         k = fr.fn.key
         if not (k.startswith('Parser::rule_') or k.endswith('::rec') or k == 'rec'): return None
         p = parser_agg(fr)
         if p is None: return None
         d = p.f[P['cst']].f[CST['data']]
-        return (k, bb, len(m.stack), p.f[P['pos']], p.f[P['error_since_advance']], p.f[P['error_node']].disc,
-                p.f[P['in_ordered_choice']], tuple(node_plain(x, pp)[1:] for x in d.f[CD['nodes']].items), d.f[CD['non_skip_len']], m.nd,
-                tuple((i, v) for i, v in enumerate(fr.L) if v.__class__ in (int, bool)))      # e.g. which alternative of an ordered choice is being attempted
+        base = (k, bb, len(m.stack), p.f[P['pos']], p.f[P['error_since_advance']], p.f[P['error_node']].disc, p.f[P['in_ordered_choice']], m.nd)
+        items = d.f[CD['nodes']].items
+        # a loop that keeps its token position and control state while the tree only grows (a node opened and closed per
+        # iteration) never repeats a full state; three visits with a strictly growing node vector are reported as
+        # non-termination as well (the native run under a timeout has the last word)
+        g = grow.get(base)
+        if g is None or len(items) <= g[0]: grow[base] = (len(items), 1)
+        else:
+            grow[base] = (len(items), g[1] + 1)
+            if g[1] + 1 >= 4: raise PathAbort('lasso', f'{k} bb{bb}: token position and control state repeat while the tree keeps growing')
+        return base + (tuple(node_plain(x, pp)[1:] for x in items), d.f[CD['non_skip_len']],
+                       tuple((i, v) for i, v in enumerate(fr.L) if v.__class__ in (int, bool)))      # e.g. which alternative of an ordered choice is being attempted
     r.loop_key = loop_key
     toks = VecObj([Agg('Token', Sym(t), []) for t in tvars[:n]])
     spans = VecObj([Agg('Range', None, [i, i + 1]) for i in range(n)])
